@@ -12,6 +12,43 @@ TEXTS = {
                 "Parser and wrapper are universally quantified, not modelled. Trusted: Lean kernel, translator, harness.",
         "technique": "Lean 4 proof over executable model + differential correspondence + per-case contract evaluation",
     },
+    "C02": {
+        "text": "Lean theorems: unconditional line break after every single-line comment in the reconstructor; exactness of the three "
+                "documented content normalisations. The scanner-stability part is decided by a re-scan oracle on every well-formed "
+                "generated program in every layout (partial).",
+        "design_ref": "DESIGN.md section 5 (C02)",
+        "note": "relex_stable and the spacing non-gluing table are not yet theorems.",
+        "technique": "Lean 4 proof of sub-claims over executable model + correspondence + re-scan oracle",
+    },
+    "C03": {
+        "text": "Lean theorems for the fixpoint lemmas (lower-casing, trimming, blank-line clamp, newline read-back); the composition relies "
+                "on wrapper contracts decided by a format-twice oracle on every well-formed case (partial). Known finding F10.",
+        "design_ref": "DESIGN.md section 5 (C03)",
+        "note": "Wrapper determinism and ReflowFresh are contracts, not theorems.",
+        "technique": "Lean 4 proof of sub-claims + metamorphic oracle",
+    },
+    "C05": {
+        "text": "Lean theorem for the rendering of first-token counters; block structure itself decided by a generator-marked structure "
+                "oracle (first-on-line, one unit deeper than the opener's line, closers at the opener's indentation, begin under "
+                "always_wrap) on every generated program (partial).",
+        "design_ref": "DESIGN.md section 5 (C05)",
+        "note": "The grammar knowledge of the parser is not modelled. Known finding F21.",
+        "technique": "Lean 4 proof of rendering + specification-level oracle from the generator's AST marks",
+    },
+    "C06": {
+        "text": "Lean theorems: whitespace reduction to counters, layout-invariance of TokenSpacing for all kind sequences, blank-line "
+                "clamp; end-to-end layout independence decided by formatting pairs of re-layouts of the same program (partial).",
+        "design_ref": "DESIGN.md section 5 (C06)",
+        "note": "Non-interference of the parser and the wrapper are contracts checked by the pair oracle.",
+        "technique": "Lean 4 proof of sub-claims over executable model + metamorphic relayout oracle",
+    },
+    "C11": {
+        "text": "Lean theorems about the idealised optimiser (argmin_shrink, antitone overflow penalty, fits-monotonicity); the "
+                "implementation's search is checked by a width-pair oracle only (partial).",
+        "design_ref": "DESIGN.md section 5 (C11)",
+        "note": "find_optimal_solution's pruning and iteration limit are not modelled.",
+        "technique": "Lean 4 proof about an idealised optimiser + width-pair oracle",
+    },
     "C04": {
         "text": "Totality of every model function plus Lean theorems for linear pass count and reference validity of the line builder; "
                 "for the unmodelled control flow (parser, wrapper search) a monitor: catch_unwind + hang detector per case on a debug "
